@@ -33,7 +33,7 @@ import ast
 import codecs
 
 from ..absval import Poly, Rat, eval_pred, orderings, ratfun
-from ..cfg import CFG
+from ..cfg import CFG, branch_facts, guarded_by
 from ..core import (AnalysisError, ancestors, call_name, const_str, dotted,
                     find_calls, is_self_attr, kwarg, last_attr, names_in,
                     short, txt, walk)
@@ -117,6 +117,9 @@ class Sym:
         self.func = func
         self.data_names = set(data_names)
         self.L = length
+        #: name of the dataset variable; len(D) / D.shape[0] then stand for
+        #: the length after the resize, off + len(data)
+        self.dset = None
         self.bind = {}
         self.special = special
         self.assigns = {}
@@ -180,6 +183,8 @@ class Sym:
                 self._busy.discard(node.id)
         if is_len_of(node, self.data_names):
             return self.L
+        if self.dset is not None and is_len_of(node, {self.dset}):
+            return S("off") + self.L
         if isinstance(node, ast.BinOp) and isinstance(
                 node.op, (ast.FloorDiv, ast.Mod)):
             return self._divmod(node.op, node.left, node.right, node)
@@ -189,9 +194,11 @@ class Sym:
         a, b = self.rat(left), self.rat(right)
         if a.same(self.L) and b.same(S("c")):
             return S("q") if isinstance(op, ast.FloorDiv) else S("r")
-        raise AnalysisError(
-            f"{self.func.name}: integer division `{short(node, 50)}` is not "
-            f"len(data) by the chunk length")
+        # quotient / remainder of another length (or by another divisor):
+        # an opaque symbol that is *not* q or r – the tiling identities
+        # that depend on it fail and name it
+        kind = "div" if isinstance(op, ast.FloorDiv) else "mod"
+        return S(f"{kind}({show(a)}, {show(b)})")
 
 
 # ----------------------------------------------------------------------
@@ -310,6 +317,7 @@ def r11_frame(ctx, func, fr, sym, tag):
     cfg = CFG(func)
     off = S("off")
     sym.bind[fr.O] = off
+    sym.dset = fr.D
     # -- create side
     ok = fr.create_when_absent
     ctx.ob("R1.1", ok, "the dataset is created exactly when the name is "
@@ -579,6 +587,53 @@ def r12(ctx, func, fr, sym, stores):
 # ----------------------------------------------------------------------
 # R1.3
 
+def _binds(n, var):
+    """CFG node `n` (re-)binds the plain name `var`"""
+    if n.ast is None or var is None:
+        return False
+    if n.kind == "stmt" and isinstance(n.ast, ast.Assign):
+        return any(isinstance(x, ast.Name) and x.id == var
+                   for t in n.ast.targets for x in ast.walk(t)
+                   if isinstance(x, ast.Name)
+                   and isinstance(x.ctx, ast.Store))
+    if n.kind == "stmt" and isinstance(n.ast, (ast.AugAssign,
+                                                ast.AnnAssign)):
+        return isinstance(n.ast.target, ast.Name) and n.ast.target.id == var
+    if n.kind == "for":
+        return var in names_in(n.ast.target)
+    if n.kind == "with_enter":
+        return any(it.optional_vars is not None
+                   and var in names_in(it.optional_vars)
+                   for it in n.ast.items)
+    return False
+
+
+def reaching_defs(cfg, var, stmt):
+    """ids of the CFG nodes whose binding of `var` can reach `stmt`
+    ('param' for the value at function entry)"""
+    tids = set(cfg.ids_of(stmt))
+    if not tids:
+        raise AnalysisError("reaching definitions: statement not in CFG")
+
+    def is_def(n):
+        return _binds(n, var)
+    out = set()
+    for n in cfg.nodes:
+        if is_def(n) and tids & cfg.reach([n.id], avoid_node=is_def):
+            out.add(n.id)
+    if tids & cfg.reach([cfg.entry], avoid_node=is_def):
+        out.add("param")
+    return out
+
+
+def _is_bytes_fact(e, truth, var):
+    """the branch fact (e, truth) says isinstance(var, bytes)"""
+    return (truth and isinstance(e, ast.Call)
+            and call_name(e) == "isinstance" and len(e.args) == 2
+            and isinstance(e.args[0], ast.Name) and e.args[0].id == var
+            and "bytes" in txt(e.args[1]))
+
+
 def _lines_param(func):
     """name of the parameter of write_text that holds the lines"""
     params = [a.arg for a in func.args.args]
@@ -647,26 +702,70 @@ def r13(ctx, func, fr):
         raise AnalysisError("write_text: the list of stored lines is not "
                             "filled by one append per line")
     app = apps[0]
-    ok = isinstance(app.args[0], ast.Name) and app.args[0].id == B \
-        and _stmt_of(app) in loop.body
-    ctx.ob("R1.3", ok, f"the width is measured on `{B}`, the object that is "
-           f"stored" if ok else
-           f"the width is measured on `{B}` but `{short(app.args[0], 20)}` "
-           f"is stored (encoded length may differ)", node=upd,
-           label="width measured on stored bytes")
-    defs = [n for n in walk(loop) if isinstance(n, ast.Assign)
-            and any(isinstance(t, ast.Name) and t.id == B
-                    for t in n.targets)]
-    enc = [d for d in defs if isinstance(d.value, ast.Call)
-           and last_attr(d.value) == "encode"]
-    other = [d for d in defs if d not in enc]
-    ok = bool(enc) and all(isinstance(d.value, ast.Name)
-                           and isinstance(d.parent, ast.If)
-                           and "bytes" in txt(d.parent.test)
-                           for d in other)
-    ctx.ob("R1.3", ok, f"`{B}` is the encoded line (bytes pass through)"
-           if ok else f"`{B}` is not the encoded form of the line",
-           node=(enc or defs or [upd])[0], label="stored object is encoded")
+    app_stmt = _stmt_of(app)
+    Y = app.args[0].id if isinstance(app.args[0], ast.Name) else None
+    # flow-sensitive: the value measured by len() must be the value that
+    # is appended – same variable and the same reaching definitions
+    rd_m = reaching_defs(cfg, B, upd)
+    rd_a = reaching_defs(cfg, Y, app_stmt) if Y else set()
+    same = Y == B and rd_m == rd_a and app_stmt in loop.body
+    if Y != B:
+        why = (f"the width is measured on `{B}` but "
+               f"`{short(app.args[0], 20)}` is stored (encoded length may "
+               f"differ)")
+    elif rd_m != rd_a:
+        late = sorted(short(cfg.nodes[i].ast, 40) if cfg.nodes[i].kind
+                      != "for" else f"for {short(cfg.nodes[i].ast.target, 20)}"
+                      for i in (rd_a - rd_m) if isinstance(i, int))
+        why = (f"`{B}` is measured before it is re-bound by {late}: the "
+               f"width counts characters of the unencoded line, the encoded "
+               f"bytes are stored")
+    else:
+        why = "the line is not appended unconditionally"
+    ctx.ob("R1.3", same, f"the width is measured on the value of `{B}` that "
+           f"is stored ({len(rd_a)} reaching definition(s))" if same else why,
+           node=upd, label="width measured on stored bytes")
+    # every definition reaching the append is the encoded form; an
+    # unencoded line passes only along a path that tested it to be bytes
+    bad = []
+    n_enc = 0
+    for i in sorted(x for x in rd_a if isinstance(x, int)):
+        n = cfg.nodes[i]
+        if n.kind == "stmt" and isinstance(n.ast, ast.Assign) \
+                and isinstance(n.ast.value, ast.Call) \
+                and last_attr(n.ast.value) == "encode":
+            n_enc += 1
+            continue
+        if n.kind == "stmt" and isinstance(n.ast, ast.Assign) \
+                and isinstance(n.ast.value, ast.Name):
+            # copy of the raw line: the copy itself must be bytes-guarded
+            src = n.ast.value.id
+            if guarded_by(cfg, i, lambda e, t, v=src: _is_bytes_fact(
+                    e, t, v)):
+                continue
+            bad.append(n)
+            continue
+        if n.kind == "for":
+            # the raw loop element: may reach the append only through a
+            # branch that established isinstance(<element>, bytes)
+            def est(src_n, lab, dst_n, v=Y):
+                if src_n.kind != "test" or lab not in ("T", "F"):
+                    return False
+                return any(_is_bytes_fact(e, t, v) for e, t in branch_facts(
+                    src_n.ast.test, lab == "T"))
+            r = cfg.reach([i], avoid_node=lambda m, v=Y: _binds(m, v),
+                          avoid_edge=est)
+            if set(cfg.ids_of(app_stmt)) & r:
+                bad.append(n)
+            continue
+        bad.append(n)
+    if "param" in rd_a:
+        bad.append(None)
+    ok = not bad and n_enc >= 1
+    ctx.ob("R1.3", ok, f"`{Y}` is the encoded line where it is stored "
+           f"(bytes pass through)" if ok else
+           f"an unencoded line can reach `{short(app, 40)}`", node=app,
+           label="stored object is encoded")
     # -- guard on the append path
     open_ids = cfg.ids_of(fr.open)
     store_ids = set()
@@ -1323,6 +1422,95 @@ def r16(ctx, repo):
 # ----------------------------------------------------------------------
 # R1.7
 
+def _is_counter_reset(n):
+    """CFG node drops entries of self._group_sizes"""
+    if n.ast is None or n.kind != "stmt":
+        return False
+    a = n.ast
+    if isinstance(a, ast.Delete):
+        return any(isinstance(t, ast.Subscript)
+                   and is_self_attr(t.value, "_group_sizes")
+                   for t in a.targets)
+    if isinstance(a, ast.Assign):
+        return any(is_self_attr(t, "_group_sizes") for t in a.targets) \
+            and isinstance(a.value, (ast.Dict, ast.Call))
+    if isinstance(a, ast.Expr) and isinstance(a.value, ast.Call):
+        c = a.value
+        return last_attr(c) in ("pop", "clear") and isinstance(
+            c.func, ast.Attribute) and is_self_attr(
+            c.func.value, "_group_sizes")
+    return False
+
+
+def _counter_lifetime(ctx, repo, wr, grpvar, key):
+    """The cached group size must not survive the deletion of its group
+    (reset-set ⊇ memo-set): either the key is the h5py.Group object itself –
+    a re-created group is a new object, hence a new key – or every site that
+    deletes a group handed to write_ragged drops the cached entry before
+    write_ragged can run again."""
+    params = {a.arg for a in wr.args.args} - {"self"}
+    if isinstance(key, ast.Name) and key.id == grpvar:
+        defs = [n for n in walk(wr) if isinstance(n, ast.Assign)
+                and any(isinstance(t, ast.Name) and t.id == grpvar
+                        for t in n.targets)]
+        ok = len(defs) == 1 and isinstance(defs[0].value, ast.Call) \
+            and last_attr(defs[0].value) in ("require_group",
+                                             "create_group")
+        if not ok:
+            raise AnalysisError("write_ragged: binding of the group object "
+                                "not recognised")
+        ctx.ob("R1.7", True, "the counter is cached under the group object: "
+               "a deleted and re-created group is a new key", node=defs[0],
+               label="counter cannot outlive its group")
+        return
+    # a key that names the *location* (path string, dataset name, tuple of
+    # such): it stays valid after the group is deleted and re-created
+    leaves = names_in(key)
+    calls = {call_name(c) for c in ast.walk(key) if isinstance(c, ast.Call)}
+    if not leaves <= ({grpvar} | params) or calls & {"id", "hash"} \
+            or not leaves:
+        raise AnalysisError(f"write_ragged: counter key "
+                            f"`{short(key, 40)}` cannot be classified")
+    cls = repo.cls(WR, "RTDCWriter")
+    sites = []
+    for f in cls.body:
+        if not isinstance(f, ast.FunctionDef):
+            continue
+        groups = set()
+        for c in find_calls(f, attr="write_ragged"):
+            g = kwarg(c, "group", 0)
+            if isinstance(g, ast.Name):
+                groups.add(g.id)
+        if not groups:
+            continue
+        for d in walk(f):
+            if isinstance(d, ast.Delete) and any(
+                    isinstance(t, ast.Subscript)
+                    and isinstance(t.value, ast.Name)
+                    and t.value.id in groups for t in d.targets):
+                sites.append((f, d))
+    if not sites:
+        ctx.ob("R1.7", True, "no caller of write_ragged deletes a group",
+               node=wr, label="counter cannot outlive its group")
+        return
+    for f, d in sites:
+        cfg = CFG(f)
+        d_ids = cfg.ids_of(d)
+        wr_ids = set()
+        for c in find_calls(f, attr="write_ragged"):
+            wr_ids |= set(cfg.ids_of(_stmt_of(c)))
+        r = cfg.reach(d_ids, avoid_node=_is_counter_reset)
+        ok = not (wr_ids & r)
+        ctx.ob("R1.7", ok,
+               f"`{short(d, 30)}` is followed by a reset of the cached group "
+               f"size before write_ragged runs" if ok else
+               f"the counter is cached under `{short(key, 30)}`, a location "
+               f"that outlives the group: after `{short(d, 30)}` (replace "
+               f"mode) the re-created group continues with the stale count "
+               f"and its entries are not named 0..N-1", node=d,
+               label="counter cannot outlive its group")
+
+
 def r17(ctx, repo):
     wr = repo.func(WR, "RTDCWriter.write_ragged")
     loops = [n for n in walk(wr) if isinstance(n, ast.For)
@@ -1340,10 +1528,22 @@ def r17(ctx, repo):
     ivar, xvar = [e.id for e in lp.target.elts]
     cd = find_calls(lp, attr="create_dataset")[0]
     grp = txt(cd.func.value)
+    if not isinstance(cd.func.value, ast.Name):
+        raise AnalysisError("write_ragged: group variable not a plain name")
+    # the key under which the running counter is cached
+    subs = [n for n in walk(wr) if isinstance(n, ast.Subscript)
+            and is_self_attr(n.value, "_group_sizes")]
+    keys = {txt(n.slice) for n in subs}
+    if len(keys) != 1:
+        raise AnalysisError(f"write_ragged: counter cache addressed with "
+                            f"{sorted(keys)} – expected one key expression")
+    keytxt = keys.pop()
+    keynode = subs[0].slice
+    _counter_lifetime(ctx, repo, wr, cd.func.value.id, keynode)
 
     def is_counter(e):
         return isinstance(e, ast.Subscript) and is_self_attr(
-            e.value, "_group_sizes") and txt(e.slice) == grp
+            e.value, "_group_sizes") and txt(e.slice) == keytxt
 
     def special(node, s):
         if is_counter(node):
@@ -1409,6 +1609,9 @@ def r17(ctx, repo):
         and isinstance(inits[0].parent, ast.If) \
         and isinstance(inits[0].parent.test, ast.Compare) \
         and isinstance(inits[0].parent.test.ops[0], ast.NotIn) \
+        and txt(inits[0].parent.test.left) == keytxt \
+        and is_self_attr(inits[0].parent.test.comparators[0],
+                         "_group_sizes") \
         and inits[0].lineno < lp.lineno
     ctx.ob("R1.7", ok, "an unknown group starts at its stored size" if ok
            else "the cached size of an unknown group is not initialised "
@@ -1567,7 +1770,8 @@ def run(ctx):
              "exist; event count is the length of a stored feature dataset",
              minimum=5)
     ctx.rule("R1.7", "ragged entries named count+i, counter advances once "
-             "per entry and starts at len(group)", minimum=4)
+             "per entry, starts at len(group) and cannot outlive a deleted "
+             "group", minimum=5)
     ctx.rule("R1.8", "reset truncates; replace deletes exactly the "
              "addressed data before writing", minimum=9)
 
@@ -1622,6 +1826,56 @@ def _event_count_from_feature_number(src):
         if src.count(old) == 1:
             return src.replace(old, rep)
     return src
+
+
+_TEXT_LOOP = (
+    '            # convert lines to bytes\n'
+    '            if not isinstance(line, bytes):\n'
+    '                lbytes = line.encode("UTF-8")\n'
+    '            else:\n'
+    '                lbytes = line\n'
+    '            max_length = max(max_length, len(lbytes))\n'
+    '            lines_as_bytes.append(lbytes)\n')
+
+
+def _counter_keyed_by_path(src):
+    return src.replace("self._group_sizes[grp]",
+                       "self._group_sizes[grp.name]").replace(
+        "if grp not in self._group_sizes",
+        "if grp.name not in self._group_sizes")
+
+
+def _counter_keyed_by_path_with_reset(src):
+    line = "                del events[feat]\n"
+    if src.count(line) != 1:
+        return src
+    return _counter_keyed_by_path(src).replace(
+        line, line + "                self._group_sizes.clear()\n")
+
+
+def _width_before_encoding(src):
+    """seeded change: len() taken before the line is re-bound to bytes"""
+    if src.count(_TEXT_LOOP) != 1:
+        return src
+    return src.replace(
+        _TEXT_LOOP,
+        '            max_length = max(max_length, len(line))\n'
+        '            # convert lines to bytes\n'
+        '            if not isinstance(line, bytes):\n'
+        '                line = line.encode("UTF-8")\n'
+        '            lines_as_bytes.append(line)\n')
+
+
+def _width_after_rebinding(src):
+    if src.count(_TEXT_LOOP) != 1:
+        return src
+    return src.replace(
+        _TEXT_LOOP,
+        '            # convert lines to bytes\n'
+        '            if not isinstance(line, bytes):\n'
+        '                line = line.encode("UTF-8")\n'
+        '            max_length = max(max_length, len(line))\n'
+        '            lines_as_bytes.append(line)\n')
 
 
 MUTANTS = [
@@ -1724,6 +1978,14 @@ MUTANTS = [
     ("features deleted in every mode but append", WR,
      ('if feat in events and self.mode == "replace":',
       'if feat in events and self.mode != "append":'), "R1.8"),
+    # seeded changes that escaped the first version of the rules
+    ("ragged counter cached under the group path", WR,
+     _counter_keyed_by_path, "R1.7"),
+    ("remainder taken from the dataset length", WR,
+     ("num_remain = len(data) % chunk_size",
+      "num_remain = len(dset) % chunk_size"), "R1.2"),
+    ("width measured before the line is encoded", WR,
+     _width_before_encoding, "R1.3"),
 ]
 
 #: apply only to the tree with the repairs of F01 in place (the guarded
@@ -1777,6 +2039,13 @@ TWINS = [
     ("text position written as ii + offset", WR,
      ("txt_dset[line_offset + ii] = lbytes",
       "txt_dset[ii + line_offset] = lbytes")),
+    ("ragged counter cached under the path, reset on deletion", WR,
+     _counter_keyed_by_path_with_reset),
+    ("remainder from data.shape[0]", WR,
+     ("num_remain = len(data) % chunk_size",
+      "num_remain = data.shape[0] % chunk_size")),
+    ("line re-bound to its encoded form, then measured", WR,
+     _width_after_rebinding),
 ]
 
 # mutants that re-introduce the repaired defects (apply to the fixed tree)
